@@ -59,6 +59,10 @@ func baseGraph(k1 []string) graph {
 	}
 }
 
+const gChainEnd = "https://r2.example/u/chain-end"
+
+func gChain(i int) string { return fmt.Sprintf("https://r2.example/c/chain/%d", i) }
+
 // install puts the graph into the application model.
 func (g graph) install(a *ap.App) {
 	for id, n := range g {
@@ -260,6 +264,7 @@ type c02case struct {
 	limit        int
 	entry        string // Send | PostOutbox
 	senderStored bool   // the application also answers InboxForActor for the sender itself
+	chain        int    // nested-collection chain family: gChain(1) -> gChain(2) -> ... -> gChain(chain) -> Frank's sibling actor gChainEnd
 	shared       int    // shared-inbox family: 1 = Carol+Erin share a stored inbox, 2 = Dave+Frank+Carol do, 3 = Carol+Erin publish the same inbox
 }
 
@@ -278,6 +283,9 @@ func (c c02case) String() string {
 	}
 	if c.shapeTyp != "" {
 		ss = fmt.Sprintf(" S=%s/%s", c.shapeTyp, []string{"one-member", "no-items-member", "empty-items", "two-members", "three-members", "four-members-one-repeated"}[c.shape])
+	}
+	if c.chain > 0 {
+		ss += fmt.Sprintf(" chain-of-%d-collections", c.chain)
 	}
 	if c.senderStored {
 		ss += " sender-inbox-stored"
@@ -430,6 +438,20 @@ func C02(tier string) int {
 				c02case{entries: es, placement: 0, k1: []string{Erin, Dave}, limit: 1, entry: "PostOutbox"})
 		}
 	}
+	// a chain of six nested collections ending in an actor, under every limit around its length and the
+	// unlimited settings; members that cannot be fetched or parsed standing next to each other in K1
+	for _, lim := range []int{0, -1, 3, 5, 6, 7, 8} {
+		for _, ent := range []string{"Send", "PostOutbox"} {
+			cases = append(cases, c02case{entries: []c02entry{{id: gChain(1)}}, k1: []string{Erin}, limit: lim, entry: ent, chain: 6},
+				c02case{entries: []c02entry{{id: Carol}, {id: gChain(1)}, {id: gChain(4)}}, placement: 1, k1: []string{Erin}, limit: lim, entry: ent, chain: 6})
+		}
+	}
+	for _, k1 := range [][]string{{Carol, gMissing, gGarbled, Erin}, {gMissing, gUnknown, Frank}, {gGarbled, gGarbled, gMissing, Erin, Carol}, {Carol, gMissing, gMissing, gMissing, Erin}} {
+		for _, lim := range []int{2, 0} {
+			cases = append(cases, c02case{entries: []c02entry{{id: gK1}}, k1: k1, limit: lim, entry: "Send"},
+				c02case{entries: []c02entry{{id: Dave}, {id: gK1}}, placement: 1, k1: k1, limit: lim, entry: "PostOutbox"})
+		}
+	}
 	// the unlimited settings of the depth limit (zero and negative) on graphs without a cycle
 	for _, es := range seqs(c02alphabet, 2) {
 		cyc := false
@@ -508,7 +530,7 @@ func C02(tier string) int {
 		}
 		cases = append(cases, c02case{entries: []c02entry{sp, {id: Erin}}, placement: 1, k1: []string{Carol, gK2}, limit: 2, entry: "PostOutbox"})
 	}
-	res.Rule = fmt.Sprintf("federation graphs over {dereferencable actor, embedded actor, actor with stored inbox (remote inbox differing), actor with stored = remote inbox, missing, garbled, unknown-type, Collection K1 with every member sequence of length <= %d over 8 nodes and six member sequences of length 3-4, OrderedCollection K2 = [actor, K1], page P1 = [actor, P1, K2] (cycles), Public in both IRI spellings, the sender (named directly or as a member; with and without an inbox of its own stored by the application)}; plus every addressing sequence of length 3-4 over {plain actor, two actors with an application-stored inbox, collection, unreachable actor, sender}; plus an actor-document family (the remote actor published as Service / Group / Organization / Application, with two types (known or unknown first), with its inbox spelled as an embedded OrderedCollection / page, with a sharedInbox endpoint, with a public key under the security context, Mastodon-like with extension terms, with unknown and near-miss members, under an aliased context); plus a shared-inbox family (two or three actors for which the application knows one shared inbox, or that publish the same inbox, or whose inboxes differ from each other / from the sender's only in the query or fragment, in every addressing sequence of length 2-4 over the reduced alphabet); plus a collection-shape family (each of Collection / OrderedCollection / CollectionPage / OrderedCollectionPage with its items member absent (totalItems + first only), empty, one, two, three or four (one repeated) members; addressed directly, next to actors, or reached through K1) and a reference-spelling family (an entry written as an embedded Mention with href only, or as an embedded Link with id and a decoy href, alone and paired with every alphabet entry); every ordered sequence of <= %d addressed entries over that 15-entry alphabet, placed in 'to' only / spread over to,bto,cc,bcc,audience / reversed; depth limit %v, and the unlimited settings 0 and -1 on the graphs without a cycle; entry points Send and client POST; %d runs; plus all two-delivery histories through one actor instance over 2 senders x 5 addressees (first) x 25 addressee pairs (second); oracle: an independent recursive function over the graph description gives the expected inbox set and the IRIs that may be dereferenced; non-trivial = runs in which something was dereferenced or delivered, distinct by (entries, placement, K1, limit)", map[bool]int{false: 1, true: 2}[res.Thorough()], maxEntries, limits, len(cases))
+	res.Rule = fmt.Sprintf("federation graphs over {dereferencable actor, embedded actor, actor with stored inbox (remote inbox differing), actor with stored = remote inbox, missing, garbled, unknown-type, Collection K1 with every member sequence of length <= %d over 8 nodes and six member sequences of length 3-4, OrderedCollection K2 = [actor, K1], page P1 = [actor, P1, K2] (cycles), Public in both IRI spellings, the sender (named directly or as a member; with and without an inbox of its own stored by the application)}; plus every addressing sequence of length 3-4 over {plain actor, two actors with an application-stored inbox, collection, unreachable actor, sender}; plus an actor-document family (the remote actor published as Service / Group / Organization / Application, with two types (known or unknown first), with its inbox spelled as an embedded OrderedCollection / page, with a sharedInbox endpoint, with a public key under the security context, Mastodon-like with extension terms, with unknown and near-miss members, under an aliased context); plus a chain of six nested collections ending in an actor under limits 3, 5, 6, 7, 8 and the unlimited settings, and K1 holding two or three members next to each other that cannot be fetched or parsed before reachable ones; plus a shared-inbox family (two or three actors for which the application knows one shared inbox, or that publish the same inbox, or whose inboxes differ from each other / from the sender's only in the query or fragment, in every addressing sequence of length 2-4 over the reduced alphabet); plus a collection-shape family (each of Collection / OrderedCollection / CollectionPage / OrderedCollectionPage with its items member absent (totalItems + first only), empty, one, two, three or four (one repeated) members; addressed directly, next to actors, or reached through K1) and a reference-spelling family (an entry written as an embedded Mention with href only, or as an embedded Link with id and a decoy href, alone and paired with every alphabet entry); every ordered sequence of <= %d addressed entries over that 15-entry alphabet, placed in 'to' only / spread over to,bto,cc,bcc,audience / reversed; depth limit %v, and the unlimited settings 0 and -1 on the graphs without a cycle; entry points Send and client POST; %d runs; plus all two-delivery histories through one actor instance over 2 senders x 5 addressees (first) x 25 addressee pairs (second); oracle: an independent recursive function over the graph description gives the expected inbox set and the IRIs that may be dereferenced; non-trivial = runs in which something was dereferenced or delivered, distinct by (entries, placement, K1, limit)", map[bool]int{false: 1, true: 2}[res.Thorough()], maxEntries, limits, len(cases))
 	res.Assumptions = []string{"order of recipients and how often one IRI is dereferenced are not asserted",
 		"documents that decode to a known non-actor type or to an actor without inbox are outside the alphabet (the statement is silent; C11 covers crashes)",
 		"the stored inbox is consulted for directly addressed actors only, as the code does; collection members with a stored inbox have stored == remote inbox"}
@@ -550,6 +572,16 @@ func C02(tier string) int {
 			}
 			if c.senderStored {
 				g[Alice].stored = Alice + "/inbox"
+			}
+			for i := 1; i <= c.chain; i++ {
+				next := gChain(i + 1)
+				if i == c.chain {
+					next = gChainEnd
+				}
+				g[gChain(i)] = &gnode{kind: "collection", members: []string{next}, ordered: i%2 == 0}
+			}
+			if c.chain > 0 {
+				g[gChainEnd] = &gnode{kind: "actor", inbox: gChainEnd + "/inbox"}
 			}
 			switch c.shared {
 			case 1:
